@@ -18,6 +18,14 @@ for d in /verif/seeded/$pat/; do
   log=$(cd $ev && VERIF_REPO=$wt timeout 1500 ./check $prop --tier $tier 2>&1); rc=$?
   first=$(echo "$log" | grep -a -m1 '^VIOLATION' | tr -cd '[:print:]'); detail=$(echo "$log" | grep -a -m1 '^  (' | cut -c1-160 | tr -cd '[:print:]')
   caught=no; [ $rc = 1 ] && [ -n "$first" ] && caught=yes
+  also=$(python3 -c "import json,sys; print(json.load(open('$d/meta.json')).get('also_check',''))" 2>/dev/null)
+  if [ $caught = no ] && [ -n "$also" ]; then
+    # the changed code is anchored in another property: does that property's quick check report it?
+    git -C $wt checkout -q -- . 2>/dev/null; git -C $wt apply $d/patch.diff
+    log2=$(cd $ev && VERIF_REPO=$wt timeout 1500 ./check $also --tier $tier 2>&1); rc2=$?
+    first2=$(echo "$log2" | grep -a -m1 '^VIOLATION' | tr -cd '[:print:]'); detail2=$(echo "$log2" | grep -a -m1 '^  (' | cut -c1-140 | tr -cd '[:print:]')
+    if [ $rc2 = 1 ] && [ -n "$first2" ]; then caught=yes; first="$first2"; detail="[reported by the check of $also, where the changed code is anchored] $detail2"; fi
+  fi
   if [ $caught = no ] && [ -x $d/demo/run.sh -o -f $d/demo/run.sh ]; then
     # does the change still break the property on the current (repaired) tree? its own demo decides
     if ( export GOFLAGS=-mod=mod GOPROXY=off GOSUMDB=off GOTOOLCHAIN=local; timeout 600 bash $d/demo/run.sh $wt >/dev/null 2>&1 ); then
